@@ -19,6 +19,7 @@ from pyvc.lib import numpy_ as np
 from pyvc.lib.numpy_ import FLOAT64, NDArray, OBJECT
 
 PROPERTY = 'C14'
+LEVEL = 'other'        # mixed: one function proved, the rest bounded (MANIFEST level_claimed.category)
 MOD = 'emsarray.operations.triangulate'
 
 
